@@ -225,8 +225,17 @@ static void gen_case(struct iso_case *ic, int small)
 		struct c06_op *op = &ic->hist.op[i];
 		int persistent = op->kind == OP_INSPATH || (op->kind == OP_SETPLAYER &&
 			(op->a == XMP_PLAYER_FLAGS || op->a == XMP_PLAYER_SMPCTL || op->a == XMP_PLAYER_DEFPAN || op->a == XMP_PLAYER_VOICES));
+		/* smix sessions may be opened in the history; slot filling needs the same module state on both sides */
+		if (op->kind == OP_SMIXLOAD)
+			persistent = 1;
 		if (!persistent)
 			ic->hist.op[k++] = *op;
+	}
+	/* every session is closed before the observed script starts (closing is refused while playing) */
+	if (k + 2 <= C06_MAXOPS) {
+		memset(&ic->hist.op[k], 0, 2 * sizeof(struct c06_op));
+		ic->hist.op[k++].kind = OP_END;
+		ic->hist.op[k++].kind = OP_SMIXEND;
 	}
 	ic->hist.n = k;
 }
